@@ -407,7 +407,8 @@ class Emit:
         if k == "field":
             return "%s.%s" % (self.term(e[1]), lname(e[2]))
         if k == "struct":
-            return "(%s.mk %s)" % (e[1][-1], " ".join(self.atom(x) for _, x in e[2]))
+            h = self.names.get("struct:" + e[1][-1])
+            return "(%s %s)" % (h[1] if h else e[1][-1] + ".mk", " ".join(self.atom(x) for _, x in e[2]))
         if k == "cast":
             raise TranslateError("cast `%s`" % rust_text(e))
         if k == "not":
@@ -608,7 +609,7 @@ def impl_spans(text):
     for m in re.finditer(r"\b(impl|pub\s+trait|trait)\b", text):
         i = text.find("{", m.end())
         semi = text.find(";", m.end())
-        if i < 0 or (0 <= semi < i):
+        if i < 0 or (0 <= semi < i) or "}" in text[m.start():i] or '"' in text[m.start():i]:
             continue
         d, j = 0, i
         while j < len(text):
@@ -684,7 +685,7 @@ RANDOM = {"self": ("self", "R"), "self.rng": R}
 def rnd(fn, binders, ret, extra=None, params=(), **kw):
     names = dict(RANDOM)
     names.update(extra or {})
-    d = {"file": "src/random.rs", "fn": fn, "lean": "Random." + fn, "binders": (RB + " " + binders).strip(), "ret": ret, "names": names, "params": list(params)}
+    d = {"file": "src/random.rs", "fn": fn, "header": ("std::io::Read for Random<R>" if fn.startswith("read") else "?Sized> Random<R>"), "lean": "Random." + fn, "binders": (RB + " " + binders).strip(), "ret": ret, "names": names, "params": list(params)}
     d.update(kw)
     return d
 
@@ -775,6 +776,30 @@ FUNCS_RNG += [
 ]
 
 
+# constructors: src/lib.rs and `new` / `from_rng` of the generators
+FUNCS_CTOR = [
+    {"file": "src/lib.rs", "fn": "new", "lean": "lib.new", "binders": "{G : Type} (Xoshiro256_new : G)", "ret": "G", "pure": True, "names": {"crate::rng::Xoshiro256::new": ("pfn", "Xoshiro256_new")}},
+    {"file": "src/lib.rs", "fn": "seeded", "lean": "lib.seeded", "binders": "{G : Type} (Xoshiro256_from_seed : BitVec 64 → G) (seed : BitVec 64)", "ret": "G", "pure": True,
+     "names": {"crate::rng::Xoshiro256::from_seed": ("pfn", "Xoshiro256_from_seed")}, "params": ["seed"]},
+    {"file": "src/lib.rs", "fn": "csprng", "lean": "lib.csprng", "binders": "{G : Type} (ChaCha12_new : G)", "ret": "G", "pure": True, "names": {"crate::rng::ChaCha12::new": ("pfn", "ChaCha12_new")}},
+]
+for gen, rel, header in [("SplitMix64", "src/rng/splitmix64.rs", "impl SplitMix64"), ("Wyrand", "src/rng/wyrand.rs", "impl Wyrand"), ("Xoshiro256", "src/rng/xoshiro256.rs", "impl Xoshiro256")]:
+    FUNCS_CTOR.append({"file": rel, "fn": "new", "header": header, "lean": gen + ".new", "binders": "{St G : Type} (getrandom : m St) (mk : St → G)", "ret": "m G",
+                       "names": {"util::getrandom": ("fn", "getrandom"), "Random::wrap": ("pfn", "id"), "struct:" + gen: ("pfn", "mk")}})
+    if gen == "Xoshiro256":
+        FUNCS_CTOR.append({"file": rel, "fn": "from_rng", "header": header, "lean": gen + ".from_rng", "binders": "{St G : Type} (random_bytes : m St) (mk : St → G)", "ret": "m G",
+                           "names": {"rand": ("self", "R"), "self.random_bytes": ("fn", "random_bytes"), "Random::wrap": ("pfn", "id"), "struct:" + gen: ("pfn", "mk")}})
+    else:
+        FUNCS_CTOR.append({"file": rel, "fn": "from_rng", "header": header, "lean": gen + ".from_rng", "binders": RB + " {G : Type} (mk : BitVec 64 → G)", "ret": "m G",
+                           "names": {"rand": R, "Random::wrap": ("pfn", "id"), "struct:" + gen: ("pfn", "mk")}})
+FUNCS_CTOR += [
+    {"file": "src/rng/chacha.rs", "fn": "new", "header": "impl<const N: usize> ChaCha<N>", "lean": "ChaCha.new", "binders": "{St B G : Type} (getrandom : m St) (BlockRngImpl_new : St → B) (mk : B → G)", "ret": "m G",
+     "names": {"util::getrandom": ("fn", "getrandom"), "BlockRngImpl::new": ("pfn", "BlockRngImpl_new"), "Random::wrap": ("pfn", "id"), "struct:ChaCha": ("pfn", "mk")}},
+    {"file": "src/rng/chacha.rs", "fn": "from_rng", "header": "impl<const N: usize> ChaCha<N>", "lean": "ChaCha.from_rng", "binders": "{St B G : Type} (random_bytes : m St) (BlockRngImpl_new : St → B) (mk : B → G)", "ret": "m G",
+     "names": {"rand": ("self", "R"), "self.random_bytes": ("fn", "random_bytes"), "BlockRngImpl::new": ("pfn", "BlockRngImpl_new"), "Random::wrap": ("pfn", "id"), "struct:ChaCha": ("pfn", "mk")}},
+]
+
+
 def rng_overrides(repo):
     """which methods every `impl .. Rng for ..` block of src/rng/*.rs defines (the others are the trait's defaults)"""
     out = []
@@ -830,9 +855,14 @@ def tuple_arities(repo):
 
 
 def generate(repo, out_dir, write):
-    groups = [("GlueRandom.lean", FUNCS_RANDOM, "src/random.rs, src/rng.rs, src/rng/util.rs", None),
+    DISTR_ENTRY = {"next", "fill", "range", "float01", "sample", "coin_flip", "choose", "choose_mut"}
+    core = [f for f in FUNCS_RANDOM if not (f["file"] == "src/random.rs" and f["fn"] in DISTR_ENTRY)]
+    entry = [f for f in FUNCS_RANDOM if f["file"] == "src/random.rs" and f["fn"] in DISTR_ENTRY]
+    groups = [("GlueRandom.lean", core, "src/random.rs (generator-facing methods), src/rng.rs, src/rng/util.rs", None),
+              ("GlueRandomDistr.lean", entry, "src/random.rs (distribution-facing methods)", None),
               ("GlueDistr.lean", FUNCS_DISTR, "src/distr.rs, src/distr/samples.rs, src/distr/uniform.rs", None),
               ("GlueStandard.lean", FUNCS_STANDARD, "src/distr/standard.rs", "std"),
+              ("GlueCtor.lean", FUNCS_CTOR, "src/lib.rs and the constructors of src/rng/{splitmix64,wyrand,xoshiro256,chacha}.rs", None),
               ("GlueRng.lean", FUNCS_RNG, "src/rng/{chacha,xoshiro256,wyrand,splitmix64,block,system}.rs", "rng")]
     for fname, funcs, srcs, extra in groups:
         try:
